@@ -45,9 +45,9 @@ CHECKS = {
  "C09": dict(engine="mirsmt", technique="SMT (linear integer arithmetic; z3 cross-checked by cvc5) over a sequential encoding generated from the MIR of PayloadWriter::{new,write_*,commit,payloads} and Payloads::{next_payload,drop} with length-abstract byte buffers (segments with symbolic lengths); counterexamples replayed natively with concrete lengths against an independent DogStatsD oracle",
     text="for names, prefixes, tags and formatted values of every length, every max_payload_len < 2^32, framing on/off, and histories of writes and drains (incl. rejected-then-accepted and a second flush cycle): no panic, buffer edits only on payload boundaries, every payload within the limit, one complete message, exact length prefix, written/dropped counts match what was yielded",
     note="dev-profile MIR (every +,- overflow-checked) so integer arithmetic is exact; itoa/ryu output lengths by contract; <=3 calls per history, <=3 histogram values, <=1 label each", ref="§4 C09"),
- "C11": dict(engine="mirsmt", technique="SMT over the MIR of run_transport's start-up path for every buffer configuration (reduced scope); native replay by starting the exporter and reading from a client socket",
-    text="the transport thread reaches its event loop without panicking for buffer_size None and Some(n), n <= 2^24",
-    note="reduced claim: the mio event loop, client connect/stall/close sequences, frame streaming and delivery/ordering guarantees are NOT covered (they need a running process)", ref="§4 C11"),
+ "C11": dict(engine="mirsmt", technique="SMT over encodings generated from the MIR of drive_connection (socket results symbolic: any accepted prefix, WouldBlock, Interrupted, other errors; frames as abstract byte ranges of symbolic length) and of run_transport's start-up path; counterexamples replayed over real sockets (stalled client, independent length-delimited decoder)",
+    text="one client, <= 2 consecutive drive_connection calls, parked remainder or not, <= 2 queued frames of any length: the bytes the socket accepts are a concatenation of whole frames in queue order, a half-sent frame's remainder stays parked, no queued frame disappears while the client is kept; the transport thread starts for buffer_size None and Some(n), n <= 2^24",
+    note="reduced claim: the mio event loop, accept/close/reset sequences, fan-out bookkeeping (client counting, drop-oldest), delivery and ordering across clients are NOT covered (they need a running process)", ref="§4 C11"),
  "C18": dict(engine="mirsmt", technique="SMT decision tables (z3 cross-checked by cvc5) generated from the MIR of HttpListeningExporter::check_tcp_allowed (+closures), the compiler-generated state machine of handle_http_request, and PrometheusBuilder::add_allowed_address; counterexamples replayed against a real scrape endpoint (raw HTTP/1.1 from chosen 127.0.0.0/8 source addresses)",
     text="allowlist None or 0..3 networks, any peer address: served iff no allowlist or the peer lies in some listed network (unknown peer refused); a refused peer gets 403 with the default empty body and PrometheusHandle::render is never called for it; /health returns 'OK', every other path the value of render() for this request; add_allowed_address accepts plain addresses and CIDR subnets and rejects anything else",
     note="reduced claim: hyper/tokio (request parsing, garbage/half-open/reset connections, concurrent scrapers, the bytes on the wire) are NOT covered; IpNet::contains / from_str by their documented contracts", ref="§4 C18"),
